@@ -144,6 +144,23 @@ class Interp:
                 else:
                     v = self.value(m, st.value, env)
                 for t in tgts:
+                    if isinstance(t, ast.Tuple) and all(
+                            isinstance(x, ast.Name) for x in t.elts):
+                        if isinstance(v, (tuple, list)) and len(v) == len(
+                                t.elts):
+                            vs = list(v)
+                        elif isinstance(st.value, ast.Tuple) and len(
+                                st.value.elts) == len(t.elts):
+                            vs = [self.value(m, x, env)
+                                  for x in st.value.elts]
+                        else:
+                            vs = [UNKNOWN] * len(t.elts)
+                        for x, xv in zip(t.elts, vs):
+                            if xv is UNKNOWN:
+                                env.pop(x.id, None)
+                            else:
+                                env[x.id] = xv
+                            acts.append(('set', x.id, xv))
                     if isinstance(t, ast.Name):
                         if v is UNKNOWN:
                             env.pop(t.id, None)
